@@ -55,6 +55,11 @@ func directedProgram() *idlgen.Program {
 			fld(25, idlgen.Default, mapOf(dbl, setOf(i32)), "mds"),
 			fld(26, idlgen.Optional, named("All"), "rec"),
 		}},
+		{Kind: 's', Name: "D5", Fields: []*idlgen.Field{ // 8: containers of struct-typed elements (aliasing, nil elements)
+			fld(1, idlgen.Default, listOf(named("K")), "l"), fld(2, idlgen.Default, mapOf(str, named("K")), "m"),
+			fld(3, idlgen.Default, listOf(listOf(named("K"))), "ll"), fld(4, idlgen.Default, listOf(named("U")), "lu"),
+			fld(5, idlgen.Default, setOf(named("K")), "sk"),
+		}},
 	}
 	return &idlgen.Program{Files: []*idlgen.File{f}}
 }
@@ -85,11 +90,12 @@ const (
 	dD4
 	dU
 	dAll
+	dD5
 )
 
 type witness struct {
 	sidx int
-	op   string // "E" or "W"
+	op   string // "E", "ES" or "W"
 	x, y *values.Value
 	note string
 }
@@ -101,6 +107,8 @@ func directedWitnesses() []witness {
 	R := values.Record
 	M := values.Map
 	k := func(n int64) *values.Value { return R(i(n)) }
+	L := values.List
+	n := values.Nil
 	return []witness{
 		// DESIGN §7: {1:0} vs {2:0}: equal length, the missing key reads as the zero value
 		{dD0, "E", R(M(i(1), i(0))), R(M(i(2), i(0))), "map<i32,i32> {1:0} vs {2:0}"},
@@ -128,5 +136,14 @@ func directedWitnesses() []witness {
 		{dD4, "E", R(values.Nil(), values.Set(k(1))), R(values.Nil(), values.Set(k(1))), "set<K> equal"},
 		{dD4, "W", R(values.Nil(), values.Set(k(1), k(1))), nil, "set<K> duplicate"},
 		{dD4, "W", R(values.Nil(), values.Set(k(1), k(2))), nil, "set<K> distinct"},
+		// elements that are the same pointer (ES) or nil on both sides, followed by a differing element: the comparison
+		// must go on after the first element pair
+		{dD5, "ES", R(L(k(1), k(2)), n(), n(), n(), n()), R(L(k(1), k(3)), n(), n(), n(), n()), "list<K> [shared,{2}] vs [shared,{3}]"},
+		{dD5, "E", R(L(n(), k(2)), n(), n(), n(), n()), R(L(n(), k(3)), n(), n(), n(), n()), "list<K> [nil,{2}] vs [nil,{3}]"},
+		{dD5, "ES", R(n(), n(), L(L(k(1)), L(k(7))), n(), n()), R(n(), n(), L(L(k(1)), L(k(8))), n(), n()), "list<list<K>> [[shared],[{7}]] vs [[shared],[{8}]]"},
+		{dD5, "ES", R(n(), n(), n(), L(R(i(5), n()), R(i(1), n())), n()), R(n(), n(), n(), L(R(i(5), n()), R(i(2), n())), n()), "list<U> [shared,{a:1}] vs [shared,{a:2}]"},
+		{dD5, "ES", R(n(), M(values.Str("a"), k(1), values.Str("b"), k(2)), n(), n(), n()), R(n(), M(values.Str("a"), k(1), values.Str("b"), k(3)), n(), n(), n()), "map<string,K> {a:shared,b:{2}} vs {a:shared,b:{3}}"},
+		{dD5, "ES", R(n(), n(), n(), n(), values.Set(k(1), k(2))), R(n(), n(), n(), n(), values.Set(k(1), k(3))), "set<K> [shared,{2}] vs [shared,{3}]"},
+		{dD5, "ES", R(L(k(1), k(2)), n(), n(), n(), n()), R(L(k(1), k(2)), n(), n(), n(), n()), "list<K> all shared"},
 	}
 }
